@@ -119,6 +119,15 @@ def run(ctx):
     for m in maps:
         ctx.distinct.add(el.show_map(m['x']))
     ctx.sample({'mapping': el.show_map(maps[7]['x']), 'xMx': str(el.fr(maps[7]['q'][0])) if maps[7]['q'] else None})
+    # the library file is edited (every matrix entry times four) and loaded again from the same path:
+    # the standard errors follow the file that was loaded, i.e. they double
+    uq4 = dict(head['uq'])
+    uq4['M'] = [[[4 * x[0], x[1]] for x in row] for row in head['uq']['M']]
+    kind, lib4, _ = call(el.GroupLibrary.Load, el.write_synth(d, head['lib'], uq4, head['rmse']))
+    if kind == 'error':
+        raise MachineryError('edited synthetic library does not load: %r' % lib4)
+    maps4 = [dict(m, q=[[4 * m['q'][0][0], m['q'][0][1]]]) for m in maps if m.get('q')][:60]
+    ctx.evaluations += el.replay_maps(ctx, head, maps4, lib4, report, with_se=True)
     libs = el.uq_libs()
     ctx.extra['uq_libraries'] = libs
     _real(ctx, libs, 120 if thorough else 25, report, thorough)
